@@ -33,6 +33,9 @@ if not seeds:
 def one(seed):
     d = os.path.join(V, sdir, seed)
     meta = json.load(open(os.path.join(d, "meta.json")))
+    if "neutralised_by" in meta and not props_override:
+        # a later fix: commit made the code robust to this seeded change: its demonstration passes with the patch applied
+        return seed, {"neutralised": meta["neutralised_by"]["commit"]}
     props = props_override or ([meta["property"]] + list(meta.get("also", [])) if "property" in meta else list(meta.get("touches", [])))
     wt = tempfile.mkdtemp(prefix="seedmx-")
     os.rmdir(wt)
@@ -61,6 +64,10 @@ allres = json.load(open(res_path)) if os.path.exists(res_path) else {}
 with concurrent.futures.ThreadPoolExecutor(jobs) as ex:
     for seed, out in ex.map(one, seeds):
         cur = allres.setdefault(seed, {})
+        if "neutralised" in out:
+            cur["neutralised_by"] = out["neutralised"]
+            print("%-14s neutralised by fix %s (no longer a property-breaking change; not run)" % (seed, out["neutralised"]))
+            continue
         if "error" in out:
             cur["error"] = out["error"]
             print("%-14s ERROR %s" % (seed, out["error"]))
@@ -70,7 +77,7 @@ with concurrent.futures.ThreadPoolExecutor(jobs) as ex:
             print("%-14s %s %-8s rc=%d violations=%d %5.0fs  %s" % (seed, p, tier, o["rc"], o["violations"], o["wall_s"], (o["signatures"] or [""])[0][:100]))
         sys.stdout.flush()
 json.dump(allres, open(res_path, "w"), indent=1, sort_keys=True)
-missed = [s for s in seeds if not any(o.get("rc") == 1 for k, o in allres.get(s, {}).items() if isinstance(o, dict) and k.endswith(":" + tier))]
+missed = [s for s in seeds if "neutralised_by" not in allres.get(s, {}) and not any(o.get("rc") == 1 for k, o in allres.get(s, {}).items() if isinstance(o, dict) and k.endswith(":" + tier))]
 if sdir == "benign":
     alarms = [s for s in seeds if any(o.get("rc") != 0 for k, o in allres.get(s, {}).items() if isinstance(o, dict) and k.endswith(":" + tier))]
     print("benign changes run: %d, raising an alarm (must be empty): %s" % (len(seeds), alarms))
